@@ -354,16 +354,19 @@ var c20Emails = []c20case{
 	{"a@b.co", true}, {"john.doe+tag@example-host.org", true}, {"x@y", true}, {"a@b..c", false}, {"a@-b.c", false},
 	{"@b.c", false}, {"a@", false}, {"a b@c.d", false}, {"a@b.c\n", false}, {"a@b_c.d", false}, {"é@b.c", false},
 	{"a@b.c-", false}, {"!#$%&'*+/=?^_`{|}~-@x.y", true},
+	{"joe\u212a@example.com", false}, {"\u017fam@example.com", false}, {"joe@exam\u212aple.com", false}, {"JOE@EXAMPLE.COM", true},
 }
 var c20UUIDs = []c20case{
 	{"123e4567-e89b-12d3-a456-426614174000", true}, {"123E4567-E89B-12D3-A456-426614174000", true},
 	{"123e4567e89b12d3a456426614174000", false}, {"123e4567-e89b-12d3-a456-42661417400", false},
 	{"123e4567-e89b-12d3-a456-4266141740000", false}, {"g23e4567-e89b-12d3-a456-426614174000", false},
 	{" 123e4567-e89b-12d3-a456-426614174000", false}, {"123e4567-e89b-12d3-a456-426614174000\n", false},
+	{"123e4567-e89b-12d3-a456-42661417400\u212a", false}, {"ABCDEFAB-CDEF-ABCD-EFAB-CDEFABCDEFAB", true},
 }
 var c20URLs = []c20case{
 	{"http://example.com", true}, {"https://a.b/c?d=e#f", true}, {"ftp://h", true}, {"example.com", false},
 	{"http://", false}, {"/just/path", false}, {"mailto:a@b.c", false}, {"://x", false}, {"http://%zz", false},
+	{"http://example.com#top", true}, {"https://example.com?q=1#frag", true}, {"http://[::1]#", true}, {"http://[::1]:80/x", true},
 }
 
 func c20Regex(kind string) {
